@@ -201,7 +201,7 @@ def clientLoop (mech : Mech) (hist : List Bytes) : List CEv → CRes
       match (mech (hist ++ [c])).kind with
       | .more => (clientLoop mech (hist ++ [c]) rest).after [.response ((mech (hist ++ [c])).resp)]
       | .done => (readFinal (hist ++ [c]) rest).after [.response ((mech (hist ++ [c])).resp)]
-      | .authnErr => fail .mechErr (hist ++ [c]) 1
+      | .authnErr => fail .authnErr (hist ++ [c]) 1
       | .otherErr => fail (stepErr (mech (hist ++ [c]))) (hist ++ [c]) 1
   | .success p :: _ =>
     match p.decodeClient with
@@ -210,7 +210,7 @@ def clientLoop (mech : Mech) (hist : List Bytes) : List CEv → CRes
       match (mech (hist ++ [c])).kind with
       | .more => fail .unexpected (hist ++ [c]) 1
       | .done => { authn := true, hist := hist ++ [c], consumed := 1 }
-      | .authnErr => fail .mechErr (hist ++ [c]) 1
+      | .authnErr => fail .authnErr (hist ++ [c]) 1
       | .otherErr => fail (stepErr (mech (hist ++ [c]))) (hist ++ [c]) 1
   | .failure b :: _ => fail (failErr b) hist 1
   | .other :: _ => fail .unexpected hist 1
@@ -224,7 +224,7 @@ def clientNeg (cm : List (String × Mech)) (adv : List String) (peer : List CEv)
   | some (name, mech) =>
     if name = "" then fail .nomech [] 0 else
     match (mech []).kind with
-    | .authnErr => { fail .mechErr [] 0 with used := some name }
+    | .authnErr => { fail .authnErr [] 0 with used := some name }
     | .otherErr => { fail (stepErr (mech [])) [] 0 with used := some name }
     | .more =>
       let r := clientLoop mech [] peer
@@ -271,7 +271,7 @@ def clientLoopE (mech : Mech) : CEnv → Nat → List Bytes → List CEv → CRe
           if env.canWrite then
             (readFinal (hist ++ [c]) rest).after [.response ((mech (hist ++ [c])).resp)]
           else fail .writeErr (hist ++ [c]) 1
-        | .authnErr => fail .mechErr (hist ++ [c]) 1
+        | .authnErr => fail .authnErr (hist ++ [c]) 1
         | .otherErr => fail (stepErr (mech (hist ++ [c]))) (hist ++ [c]) 1
     | .success p :: _ =>
       match p.decodeClient with
@@ -280,7 +280,7 @@ def clientLoopE (mech : Mech) : CEnv → Nat → List Bytes → List CEv → CRe
         match (mech (hist ++ [c])).kind with
         | .more => fail .unexpected (hist ++ [c]) 1
         | .done => { authn := true, hist := hist ++ [c], consumed := 1 }
-        | .authnErr => fail .mechErr (hist ++ [c]) 1
+        | .authnErr => fail .authnErr (hist ++ [c]) 1
         | .otherErr => fail (stepErr (mech (hist ++ [c]))) (hist ++ [c]) 1
     | .failure b :: _ => fail (failErr b) hist 1
     | .other :: _ => fail .unexpected hist 1
@@ -294,7 +294,7 @@ def clientNegE (env : CEnv) (cm : List (String × Mech)) (adv : List String) (pe
   | some (name, mech) =>
     if name = "" then fail .nomech [] 0 else
     match (mech []).kind with
-    | .authnErr => { fail .mechErr [] 0 with used := some name }
+    | .authnErr => { fail .authnErr [] 0 with used := some name }
     | .otherErr => { fail (stepErr (mech [])) [] 0 with used := some name }
     | .more =>
       if env.canWrite then
@@ -445,31 +445,53 @@ def serverSessionW (cfg : List (String × Mech)) (budget : Nat) : List SEv → S
 
 /-! ### the receiving side and the negotiation context
 
-`negotiateServer` gets the context of the negotiation.  The code as it is never looks at it
-(`looks = false`); an implementation may equally test it at the top of every iteration of its
-loop, as the initiating side does, and give up with the context's error (`looks = true`).
-What it must not do is leave the loop any other way: the code below the loop is the success
-tail.  `cancelAt = some k`: the context is done from the `k`-th loop test on (the test before
-the first element is number 0). -/
-structure SCtx where
-  looks : Bool := false
-  cancelAt : Option Nat := none
-  deriving DecidableEq, Repr
+`negotiateServer` gets the context of the negotiation.  The code as it is never looks at it; an
+implementation may equally test it and give up with the context's error
 
-def SCtx.stops (c : SCtx) (i : Nat) : Bool :=
-  c.looks && (match c.cancelAt with
-    | some k => decide (k ≤ i)
-    | none => false)
+* at the top of iteration `i` of its loop, before it reads the next element (`top i`) — the
+  initiating side does this at every iteration — and/or
+* in iteration `i` after the `Step` has succeeded, before it writes its reaction (the
+  `<challenge/>`, or the closing `<success/>`) (`mid i`),
+
+at all iterations, at some, or at none: both are arbitrary predicates on the iteration number.
+What it must not do is leave the loop any other way: the code below the loop is the success
+tail.
+
+The moment the context becomes done is a tick of the clock on which the top test of iteration
+`i` is tick `2i` and its mid test is tick `2i+1`: `doneAt = some t` is seen by every test whose
+tick is `≥ t`.  So `t = 0`: done before the first element is looked at; `t = 2i+1`: it becomes
+done while the element of iteration `i` is read or while its `Step` (the permission callback)
+runs; `t = 2i+2`: it becomes done while the reaction of iteration `i` is being written — if
+that reaction is `<success/>` no test follows. -/
+structure SCtx where
+  top : Nat → Bool := fun _ => false
+  mid : Nat → Bool := fun _ => false
+  doneAt : Option Nat := none
+
+def SCtx.done (c : SCtx) (tick : Nat) : Bool :=
+  match c.doneAt with
+  | some t => decide (t ≤ tick)
+  | none => false
+
+def SCtx.stopsTop (c : SCtx) (i : Nat) : Bool := c.top i && c.done (2 * i)
+def SCtx.stopsMid (c : SCtx) (i : Nat) : Bool := c.mid i && c.done (2 * i + 1)
+
+/-- giving up with the context's error after the `Step`: its permission verdicts were recorded,
+nothing is written -/
+def ctxStop (perms : List PermCall) (used : Option String) (hist : List Bytes) : SRes :=
+  { err := .ctxErr, perms := perms, consumed := 1, used := used, hist := hist }
 
 def serverLoopC (cfg : List (String × Mech)) (ctx : SCtx) : Option SCur → Nat → List SEv → SRes
   | cur, i, peer =>
-    if ctx.stops i then { err := .ctxErr, used := cur.map (·.name), hist := (cur.map (·.hist)).getD [] } else
+    if ctx.stopsTop i then { err := .ctxErr, used := cur.map (·.name), hist := (cur.map (·.hist)).getD [] } else
     match peer with
     | [] => { err := .eof, used := cur.map (·.name), hist := (cur.map (·.hist)).getD [] }
     | ev :: rest =>
       match sevent cfg cur ev with
-      | .stop r => r
-      | .cont c resp perms => (serverLoopC cfg ctx (some c) (i + 1) rest).after [.challenge resp] perms
+      | .stop r => if r.authn && ctx.stopsMid i then ctxStop r.perms r.used r.hist else r
+      | .cont c resp perms =>
+        if ctx.stopsMid i then ctxStop perms (some c.name) c.hist
+        else (serverLoopC cfg ctx (some c) (i + 1) rest).after [.challenge resp] perms
 
 def serverSessionC (cfg : List (String × Mech)) (ctx : SCtx) : List SEv → SRes
   | [] => { err := .notCalled }
